@@ -868,6 +868,8 @@ class Interp:
             w = i.d['bits']
             if op == 'trunc':
                 r = BV(a.bits[:w])
+                if a.zero_iff is not None and a.zero_iff[0] == 'bits' and all(x == 0 for x in a.bits[w:]):
+                    r.zero_iff = a.zero_iff
                 if a.zero_iff is not None and a.zero_iff[0] == 'cond' and all(x == 0 for x in a.bits[1:]):
                     # a boolean that was widened (bool stored in a byte) and is narrowed again: same condition
                     r.zero_iff = a.zero_iff[1] if w == 1 else a.zero_iff
@@ -879,6 +881,14 @@ class Interp:
         elif op in ('add', 'sub', 'mul', 'udiv', 'urem', 'sdiv', 'srem', 'and', 'or', 'xor', 'shl', 'lshr', 'ashr'):
             a = V(0); b = V(1)
             r = self.binop(st, op, a, b, i)
+            if op == 'or' and isinstance(a, BV) and isinstance(b, BV) and any(is_top(x) for x in r.bits):
+                # (a | b) == 0  iff  a == 0 and b == 0: remember the bits whose vanishing makes the value zero (OR-accumulated comparisons)
+                def zb(x):
+                    if x.zero_iff is not None and x.zero_iff[0] == 'bits': return list(x.zero_iff[1])
+                    if x.zero_iff is None and not any(is_top(y) for y in x.bits): return [y for y in x.bits if y != 0]
+                    return None
+                za, zb_ = zb(a), zb(b)
+                if za is not None and zb_ is not None: r.zero_iff = ('bits', za + zb_)
             if op == 'xor' and i.d['bits'] == 1 and isinstance(a, BV) and isinstance(b, BV):
                 for x, y in ((a, b), (b, a)):
                     if y.concrete() == 1 and x.zero_iff and x.zero_iff[0] == 'allzero':
